@@ -27,7 +27,9 @@ class WGen:
             ct = r.choice(["int", "float", "uint"])
             return B(r.choice(CMPS), self.expr(ct, params, d - 1, False), self.expr(ct, params, d - 1, False))
         # no float subtraction: single precision cancels where the VM's doubles do not, which is not a disagreement about the program
-        ops = ["+", "*", "/"] if t == "float" else ARITH
+        # no unsigned subtraction inside larger expressions either: the VM's uint goes negative where i32 wraps, and a later / or
+        # comparison then sees different operands -- outside the domain the reference semantics covers
+        ops = ["+", "*", "/"] if t in ("float", "uint") else ARITH
         return B(r.choice(ops), self.expr(t, params, d - 1, allow_cmp), self.expr(t, params, d - 1, allow_cmp))
 
     def module(self, nfuncs=None, outside=False):
@@ -37,6 +39,15 @@ class WGen:
             params = [("p%d" % i, r.choice(["int", "float", "int", "float", "uint"])) for i in range(r.choice([0, 1, 2, 3, 4]))]
             ret = r.choice(["int", "float", "uint"]) if not params else r.choice([t for _, t in params] + ["int", "float"])
             body = [Ret(self.expr(ret, params, r.choice([1, 2, 3, 4])))]
+            if r.random() < 0.35:
+                # expression statements of other types before the return: the function's value locals then alternate between
+                # i32 and f32 in declaration order
+                pre = []
+                for _ in range(r.choice([1, 2, 3])):
+                    t = r.choice(["int", "float", "uint"])
+                    e = B(r.choice(["+", "*"]), self.expr(t, params, 1, False), self.expr(t, params, 1, False))
+                    pre.append(ES(e))
+                body = pre + body
             if outside:
                 k = r.choice(["local", "mod", "mixed", "if", "call", "le", "logic", "global-read"])
                 p0 = params[0][0] if params else None
